@@ -96,7 +96,7 @@ func (r *Run) vfCall(fr *frame, fn *ssa.Function, args []value) value {
 		switch verdict {
 		case Unsat:
 			r.decidedCache[c] = 1
-			if r.eng.crossCheck {
+			if r.eng.crossCheck && r.eng.crossCheckDue() {
 				if cv := r.solver.CrossCheck(r.ts, neg); cv != Unsat {
 					r.inconclusive("cross-check disagreement on assertion %q: primary unsat, second solver %v", msg, cv)
 				}
